@@ -454,6 +454,16 @@ macro_rules! common_methods {
                     }
                 }
                 s.push_str(" ;");
+                // the iterator is double ended: also report it reversed
+                let _ = write!(s, " b {}", vf.as_delaunay_vertex().fix().index());
+                for (n, ae) in vf.adjacent_edges().rev().enumerate() {
+                    let _ = write!(s, " {}", ae.as_delaunay_edge().fix().index());
+                    if n > lim {
+                        s.push_str(" toomany");
+                        break;
+                    }
+                }
+                s.push_str(" ;");
             }
             s
         }
